@@ -19,7 +19,7 @@ package quickfix
 //@ spec fhas(m FieldMap, t Tag) bool = has(m.tagLookup, t)
 //@ spec fval(m FieldMap, t Tag) []byte = m.tagLookup[t][0].value
 //@ spec fint(m FieldMap, t Tag) mathint = intval(m.tagLookup[t][0].value)
-//@ spec msgok(msg *Message) bool = msg != nil && fmvals(msg.Header.FieldMap) && fmvals(msg.Body.FieldMap) && fmvals(msg.Trailer.FieldMap) && msg.Header.rwLock != nil && msg.Body.rwLock != nil && msg.Trailer.rwLock != nil
+//@ spec msgok(msg *Message) bool = msg != nil && mapsok(msg) && fmvals(msg.Header.FieldMap) && fmvals(msg.Body.FieldMap) && fmvals(msg.Trailer.FieldMap)
 //@ spec isadmin(m []byte) bool = len(m) == 1 && (m[0] == 48 || m[0] == 65 || m[0] == 49 || m[0] == 50 || m[0] == 51 || m[0] == 52 || m[0] == 53)
 
 //@ func isAdminMessageType [C01,C06,C08]
@@ -356,3 +356,56 @@ package quickfix
 //@   ensures @no recv is notSessionTime ==> !result
 //@   pure
 //@   closedworld
+
+// ---- gap detection: the ResendRequest (C04) --------------------------------------------------------------------
+//@ spec rrchunked(s *session, beginSeq int, endSeq int) bool = s.ResendRequestChunkSize != 0 && wrap64(wrap64(beginSeq + s.ResendRequestChunkSize) - 1) < endSeq
+//@ spec rrchunkend(s *session, beginSeq int) mathint = wrap64(wrap64(beginSeq + s.ResendRequestChunkSize) - 1)
+//@ func (s *session) sendResendRequest [C04]
+//@   requires sessfull(s)
+//@   ensures @range nextState.resendRangeEnd == endSeq
+//@   ensures @chunk nextState.currentResendRangeEnd == (rrchunked(s, beginSeq, endSeq) ? rrchunkend(s, beginSeq) : 0)
+//@   atcall send @type fhas(arg1.Header.FieldMap, 35) && len(fval(arg1.Header.FieldMap, 35)) == 1 && fval(arg1.Header.FieldMap, 35)[0] == 50
+//@   atcall send @begin fhas(arg1.Body.FieldMap, 7) && fint(arg1.Body.FieldMap, 7) == beginSeq
+//@   atcall send @end fhas(arg1.Body.FieldMap, 16) && fint(arg1.Body.FieldMap, 16) == (rrchunked(s, beginSeq, endSeq) ? rrchunkend(s, beginSeq) : (s.sessionID.BeginString < "FIX.4.2" ? 999999 : 0))
+//@   ensures @number err == nil && !s.sentReset ==> s.store.#S == wrap64(old(s.store.#S) + 1) && s.store.#T == old(s.store.#T)
+//@   ensures @state s.State == old(s.State) && s.messageOut == old(s.messageOut) && sessfull(s)
+//@   modifies heap Gh.chan.sent, s.toSend, s.toSend[*], fresh E.sl.uint8, s.sentReset, s.store.#S, s.store.#T, heap E.quickfix.Tag, heap H.quickfix.TagValue.*, fresh E.uint8, fresh H.quickfix.FIXUTCTimestamp.*, fresh H.time.Time.*, fresh H.quickfix.messageRejectError.*, fresh P.quickfix.Tag, fresh P.quickfix.FIXInt, fresh P.quickfix.FIXBoolean, fresh H.bytes.Buffer.*
+
+//@ func (s *session) doTargetTooHigh [C04]
+//@   requires sessfull(s)
+//@   atcall sendResendRequest @begin arg1 == reject.ExpectedTarget
+//@   atcall sendResendRequest @end arg2 == wrap64(reject.ReceivedTarget - 1)
+//@   ensures @range nextState.resendRangeEnd == wrap64(reject.ReceivedTarget - 1)
+//@   ensures @chunk nextState.currentResendRangeEnd == (rrchunked(s, reject.ExpectedTarget, wrap64(reject.ReceivedTarget - 1)) ? rrchunkend(s, reject.ExpectedTarget) : 0)
+//@   ensures @number err == nil && !s.sentReset ==> s.store.#S == wrap64(old(s.store.#S) + 1) && s.store.#T == old(s.store.#T)
+//@   ensures @state s.State == old(s.State) && s.messageOut == old(s.messageOut) && sessfull(s)
+//@   modifies heap Gh.chan.sent, s.toSend, s.toSend[*], fresh E.sl.uint8, s.sentReset, s.store.#S, s.store.#T, heap E.quickfix.Tag, heap H.quickfix.TagValue.*, fresh E.uint8, fresh H.quickfix.FIXUTCTimestamp.*, fresh H.time.Time.*, fresh H.quickfix.messageRejectError.*, fresh P.quickfix.Tag, fresh P.quickfix.FIXInt, fresh P.quickfix.FIXBoolean, fresh H.bytes.Buffer.*
+
+// ---- rejects (C06) ---------------------------------------------------------------------------------------------
+//@ spec ispair(s Tag, d Tag) bool = (s == 49 && d == 56) || (s == 56 && d == 49) || (s == 50 && d == 57) || (s == 57 && d == 50) || (s == 142 && d == 143) || (s == 143 && d == 142) || (s == 115 && d == 128) || (s == 128 && d == 115) || (s == 116 && d == 129) || (s == 129 && d == 116) || (s == 144 && d == 145) || (s == 145 && d == 144)
+// a non-empty routing field of the inbound header appears under the mirrored tag of the reply
+//@ spec routed(m *Message, r *Message, src Tag, dst Tag) bool = fhas(m.Header.FieldMap, src) && len(fval(m.Header.FieldMap, src)) != 0 ==> fhas(r.Header.FieldMap, dst) && string(fval(r.Header.FieldMap, dst)) == string(fval(m.Header.FieldMap, src))
+
+// the copying step of reverseRoute (a closure over the inbound message m and the reply reverseMsg): a faithful copy
+// of field src to field dest; the other fields of the reply keep their slices
+//@ closure (m *Message) reverseRoute$1(src, dest) [C06]
+//@   requires msgok(m) && msgsafe(reverseMsg) && msgsep(reverseMsg, m)
+//@   ensures @wf msgsafe(reverseMsg)
+//@   ensures @has fhas(m.Header.FieldMap, src) && len(fval(m.Header.FieldMap, src)) != 0 ==> fhas(reverseMsg.Header.FieldMap, dest)
+//@   ensures @routed !old(fhas(reverseMsg.Header.FieldMap, dest)) ==> routed(m, reverseMsg, src, dest)
+//@   ensures @others forall t Tag :: t != dest ==> (fhas(reverseMsg.Header.FieldMap, t) <==> old(fhas(reverseMsg.Header.FieldMap, t))) && reverseMsg.Header.tagLookup[t] == old(reverseMsg.Header.tagLookup[t])
+//@   ensures @destslice (old(fhas(reverseMsg.Header.FieldMap, dest)) ==> reverseMsg.Header.tagLookup[dest] == old(reverseMsg.Header.tagLookup[dest])) && (!old(fhas(reverseMsg.Header.FieldMap, dest)) && fhas(reverseMsg.Header.FieldMap, dest) ==> fresh(reverseMsg.Header.tagLookup[dest]))
+//@   ensures @absent !(fhas(m.Header.FieldMap, src) && len(fval(m.Header.FieldMap, src)) != 0) ==> (fhas(reverseMsg.Header.FieldMap, dest) <==> old(fhas(reverseMsg.Header.FieldMap, dest)))
+//@   ensures @tagsarr (arr(reverseMsg.Header.tags) == old(arr(reverseMsg.Header.tags)) || (fresh(reverseMsg.Header.tags) && allocated(reverseMsg.Header.tags))) && (arr(reverseMsg.Header.tags) == 0 ==> reverseMsg.Header.tags == old(reverseMsg.Header.tags))
+//@   modifies reverseMsg.Header.tags, reverseMsg.Header.tags[*], reverseMsg.Header.tagLookup[*], reverseMsg.Header.tagLookup[dest][0].*, fresh E.uint8, fresh H.quickfix.TagValue.*, fresh E.quickfix.Tag, fresh P.quickfix.FIXString, fresh H.quickfix.messageRejectError.*, fresh P.quickfix.Tag
+
+// reverseRoute: a fresh reply; every copying step is one of the mirrored pairs; nothing but routing fields is set
+//@ func (m *Message) reverseRoute [C06]
+//@   stepframes
+//@   requires msgok(m)
+//@   atcall reverseRoute$1 @pair ispair(arg0, arg1)
+//@   atcall reverseRoute$1 @new forall t Tag :: fhas(reverseMsg.Header.FieldMap, t) ==> fresh(reverseMsg.Header.tagLookup[t])
+//@   ensures @fresh result != nil && fresh(result) && msgsafe(result) && fresh(result.Header.tagLookup) && fresh(result.Body.tagLookup) && fresh(result.Trailer.tagLookup)
+//@   ensures @body forall t Tag :: !fhas(result.Body.FieldMap, t) && !fhas(result.Trailer.FieldMap, t)
+//@   ensures @notype !fhas(result.Header.FieldMap, 35) && !fhas(result.Header.FieldMap, 34)
+//@   modifies fresh H.quickfix.Message.*, fresh H.quickfix.FieldMap.*, fresh H.quickfix.tagSort.*, fresh H.sync.RWMutex.*, fresh H.sync.Mutex.*, fresh MH.quickfix.Tag.quickfix.field, fresh MV.quickfix.Tag.quickfix.field, fresh H.time.Time.*, fresh E.uint8, fresh H.quickfix.TagValue.*, fresh E.quickfix.Tag, fresh P.quickfix.FIXString, fresh H.quickfix.messageRejectError.*, fresh P.quickfix.Tag, fresh P.quickfix.Message
